@@ -448,10 +448,17 @@ class CarbonClientFactory(with_metaclass(PluginRegistrar, ReconnectingClientFact
           state.events.pauseReceivingMetrics()
       # Re-inject queued metrics.
       metrics = list(self.queue)
+      self.queue.clear()
+      # This queue is empty now and nothing will be sent from it: if it is the one
+      # that paused the receivers, let them go (the re-injection below pauses them
+      # again if it fills another queue). Not while no destination is left at all,
+      # receivers stay paused for that reason.
+      if (self.router.countDestinations() and
+              self.queueFull.called and not self.queueHasSpace.called):
+          self.queueHasSpace.callback(0)
       log.clients("Re-injecting %d metrics from %s" % (len(metrics), self))
       for metric, datapoint in metrics:
           state.events.metricGenerated(metric, datapoint)
-      self.queue.clear()
 
   def disconnect(self):
     self.queueEmpty.addCallbacks(lambda result: self.stopConnecting(), log.err)
